@@ -117,6 +117,24 @@ def run(tier):
             if act["mode"] == "groups":
                 break
         blocks.append((cfg, acts))
+    # long value lists into container destinations with element formats / checks (internal per-position tables)
+    for _ in range(30 if tier == "quick" else 600):
+        cfg = g.cfg(nargs=r.randint(1, 3), kinds=["vecstr", "vecint", "arr3", "sarr3", "listint", "flag"], constraints=False, allow_pos=False)
+        acts = []
+        for a in cfg["args"]:
+            if a["kind"] == "vecstr":
+                a["formats"] = [r.choice(["upper", "lower"])]
+        for a in cfg["args"]:
+            if not arggen.is_cont(a["kind"]):
+                continue
+            key = ("-" + chr(a["s"])) if a["s"] else "--" + S(a["l"])
+            for n in (9, 10, 11, 12, 13, 25, 40):
+                vals = [str(r.randint(0, 99)) if arggen.is_int_kind(a["kind"]) else "v%d" % k for k in range(n)]
+                acts.append({"n": "Eval", "mode": "handler", "presrc": "none", "filetext": [], "envstr": [], "files": [],
+                             "argv": to_words([key, chr(a["sep"]).join(vals)]), "cmd": [], "tag": {"k": "raw"}})
+                acts.append({"n": "Eval", "mode": "handler", "presrc": "env", "filetext": [], "envstr": T(key + " " + chr(a["sep"]).join(vals)), "files": [],
+                             "prog": T("prog"), "argv": [], "cmd": [], "tag": {"k": "raw"}})
+        blocks.append((cfg, acts))
     script2 = os.path.join(c.wd, "random.ndjson")
     write_cases(script2, blocks)
     run_script(c, exe, script2, "T", timeout=1200)
